@@ -18,6 +18,8 @@ component attribute / list slot stood for).
 Supported (everything else => None, never a guess):
   statements   sig @= e | sig <<= e (whole vector signals only, as RTL/Eval.v models it) | sig.field @= e |
                sig[lo:hi] @= e | sig[i] @= e | tmp = e | if/elif/else | for v in range(const[,const[,const>0]]) | pass
+               (a loop whose body indexes a python LIST of signals through the loop variable is emitted as one
+               single-iteration SFor per value, the variable being a known constant inside)
   expressions  signals, struct fields, int / bool literals, closure & global ints and Bits constants, component int
                attributes, temporaries, loop variables, + - * & | ^ << >>, ~, == != < <= > >=, x[lo:hi], x[i],
                a if c else b, concat, zext / sext / trunc (integer width), reduce_and / reduce_or / reduce_xor,
@@ -30,6 +32,9 @@ import ast, inspect, textwrap
 
 class Outside(Exception):
   """the block uses something outside RTL/Syntax.v"""
+
+class NeedsLoopValue(Outside):
+  """a python list of signals is indexed by something that is not constant: the enclosing for loop is unrolled"""
 
 def zlit(k):
   k = int(k)
@@ -63,8 +68,16 @@ class Translator:
     # after lock_in_simulation component attributes hold values; this maps (container, key) back to the signal
     s.slot = {}
     sim = getattr(top, '_sim', None)
+    s.live_ids = set()      # storage objects of signals (and of their fields): never constants
+    def _live(v):
+      s.live_ids.add(id(v))
+      if isinstance(v, list):
+        for x in v: _live(x)
+      else:
+        for k in getattr(v, '__bitstruct_fields__', {}): _live(getattr(v, k))
     for sig, ent in (getattr(sim, 'signal_object_mapping', None) or {}).items():
       s.slot[(id(ent[0]), ent[1])] = sig
+      _live(ent[3])
     s.last_reason = None
     ids = sorted(s.sigtab.values())
     assert ids == list(range(len(ids))), 'signal ids must be 0..n-1'
@@ -93,16 +106,22 @@ class Translator:
 
   # ------------------------------------------------------------------ source
   def block_ast(s, blk):
+    """FunctionDef of the block: parsed from the function's own source (inspect; the net blocks GenDAGPass generates are
+    registered in linecache without line terminators), else the AST pymtl3 cached in get_update_block_info"""
     tree = None
     try:
-      host = s.top.get_update_block_host_component(blk)
-      info = host.get_update_block_info(blk)
-      if info is not None and not info[0]: tree = info[4]      # info[0]: created from a lambda
+      lines, _ = inspect.getsourcelines(blk)
+      tree = ast.parse(textwrap.dedent('\n'.join(l.rstrip('\r\n') for l in lines)))
     except Exception:
       tree = None
     if tree is None:
-      try: tree = ast.parse(textwrap.dedent(inspect.getsource(blk)))
-      except Exception: raise Outside('no source')
+      try:
+        host = s.top.get_update_block_host_component(blk)
+        info = host.get_update_block_info(blk)
+        if info is not None and not info[0]: tree = info[4]      # info[0]: created from a lambda
+      except Exception:
+        tree = None
+    if tree is None: raise Outside('no source')
     if not (isinstance(tree, ast.Module) and len(tree.body) == 1 and isinstance(tree.body[0], ast.FunctionDef)):
       raise Outside('not a single function')
     fn = tree.body[0]
@@ -151,6 +170,7 @@ class _Block:
         raise Outside('nested function')
     if set(b.tmps) & set(b.loops): raise Outside('name used as temporary and loop variable')
     b.lbl = 0
+    b.loopval = {}                # loop variable name -> its value in the iteration being unrolled
     b.rd, b.wr = set(), set()
     b.alias_tmp_roots = set()     # roots of live signal objects bound to temporaries
 
@@ -199,6 +219,7 @@ class _Block:
       if op is ast.RShift and 0 <= y: return x >> y
       if op is ast.Pow and 0 <= y <= 4096 and abs(x) <= 1 << 16: return x ** y
       raise Outside('const op')
+    if isinstance(node, ast.Name) and node.id in b.loopval: return b.loopval[node.id]
     if isinstance(node, (ast.Name, ast.Attribute, ast.Subscript)):
       r = b.ref(node)
       if r is not None and r[0] == 'obj' and type(r[1]) in (int, bool): return int(r[1])
@@ -248,7 +269,7 @@ class _Block:
       if isinstance(o, (list, tuple)):
         if isinstance(node.slice, ast.Slice): raise Outside('slice of a python list')
         k = b.const_int(node.slice)
-        if k is None: raise Outside('list indexed by a non-constant')
+        if k is None: raise NeedsLoopValue('list indexed by a non-constant')
         if not (-len(o) <= k < len(o)): raise Outside('list index out of range')
         k %= len(o)
         q = b.sig_of_slot(o, k)
@@ -359,6 +380,7 @@ class _Block:
     raise Outside(type(node).__name__)
 
   def const_obj(b, o, free):
+    if id(o) in b.tr.live_ids: raise Outside('signal storage reached through an unmapped path')
     if type(o) in (int, bool): return ('free', int(o)) if free else ('lit', int(o))
     if isinstance(o, b.tr.Bits): return ('sized', o.nbits, int(o))
     raise Outside(f'constant of type {type(o).__name__}')
@@ -438,7 +460,26 @@ class _Block:
       lo, hi, step = (0, args[0], 1) if len(args) == 1 else ((args[0], args[1], 1) if len(args) == 2 else args)
       if step <= 0: raise Outside('non-positive loop step')
       if hi - lo > (1 << 16) * step: raise Outside('loop too long')
-      return [('for', b.loops[st.target.id], lo, hi, step, b.stmts(st.body))]
+      name = st.target.id
+      if name in b.loopval: raise Outside('loop variable rebound inside an unrolled loop')
+      try:
+        return [('for', b.loops[name], lo, hi, step, b.stmts(st.body))]
+      except NeedsLoopValue:
+        pass
+      # a list of signals is indexed through the loop variable: one single-iteration loop per value
+      # ( for v in range(k, k+1) binds the loop variable exactly as the k-th iteration does ), inside which the
+      # variable is a known constant.  Sound only if nothing in the body rebinds it.
+      vals = list(range(lo, hi, step))
+      if len(vals) > 64: raise Outside('loop too long to unroll')
+      for n in ast.walk(st):
+        if n is not st and isinstance(n, ast.For) and isinstance(n.target, ast.Name) and n.target.id == name:
+          raise Outside('loop variable rebound inside an unrolled loop')
+      out = []
+      for v in vals:
+        b.loopval[name] = v
+        try: out.append(('for', b.loops[name], v, v + 1, 1, b.stmts(st.body)))
+        finally: del b.loopval[name]
+      return out
     raise Outside(type(st).__name__)
 
 # ------------------------------------------------------------------ python terms -> Coq
